@@ -110,6 +110,11 @@ def common_shrinks(scn):
     for fl in drop_each(faults):
         yield with_path(scn, ["faults"], fl)
     o = scn["options"]
+    for key in ("solve_twice", "reload_phase"):
+        if scn.get(key):
+            s_ = copy.deepcopy(scn)
+            s_.pop(key)
+            yield s_
     # (2) shorten
     if o.get("skip_time"):
         s = with_path(scn, ["options", "skip_time"], 0.0)
